@@ -125,3 +125,448 @@ Proof.
   rewrite (parse_items_none _ _ (parse_item_name w rest Hw Ha)).
   cbn [map concat]. rewrite (match_req_name w rest Hw Ha). reflexivity.
 Qed.
+
+(* ------------------------------------------------------------------ designators *)
+Definition par2 : str := [lpar; rpar].
+
+(* the prefix iterations a designator offers: every part but the last *)
+Fixpoint d_items (d : desig) : list (bool * str * str) :=
+  match d with
+  | DLast0 _ => []
+  | DLastA _ _ => []
+  | DPart0 x r => (false, x, x ++ [pct]) :: d_items r
+  | DPartA x _ r => (true, x ++ par2, x ++ par2 ++ [pct]) :: d_items r
+  end.
+Fixpoint d_last (d : desig) : str :=
+  match d with
+  | DLast0 x => x
+  | DLastA x _ => x ++ par2
+  | DPart0 _ r => d_last r
+  | DPartA _ _ r => d_last r
+  end.
+
+(* the text up to and including the "()" of the last part that has one, and what follows it *)
+Fixpoint d_split (d : desig) : option (str * str) :=
+  match d with
+  | DLast0 _ => None
+  | DLastA x _ => Some (x ++ par2, [])
+  | DPart0 x r => match d_split r with Some (h, t) => Some (x ++ pct :: h, t) | None => None end
+  | DPartA x _ r =>
+    match d_split r with
+    | Some (h, t) => Some (x ++ par2 ++ pct :: h, t)
+    | None => Some (x ++ par2, pct :: sh_d r)
+    end
+  end.
+
+Lemma sh_d_items d : sh_d d = concat (map (fun it => snd it) (d_items d)) ++ d_last d.
+Proof.
+  induction d as [x|x a|x r IH|x a r IH]; cbn [sh_d d_items d_last map concat snd app]; try reflexivity.
+  - rewrite IH. rewrite <- !app_assoc. reflexivity.
+  - rewrite IH. unfold par2. rewrite <- !app_assoc. reflexivity.
+Qed.
+
+Lemma d_split_eq d h t : d_split d = Some (h, t) -> sh_d d = h ++ t.
+Proof.
+  revert h t. induction d as [x|x a|x r IH|x a r IH]; cbn [d_split sh_d]; intros h t H.
+  - discriminate.
+  - injection H as <- <-. now rewrite app_nil_r.
+  - destruct (d_split r) as [[h' t']|]; [|discriminate]. injection H as <- <-.
+    rewrite (IH h' t' eq_refl). rewrite <- app_assoc. reflexivity.
+  - destruct (d_split r) as [[h' t']|].
+    + injection H as <- <-. rewrite (IH h' t' eq_refl). unfold par2. rewrite <- !app_assoc. reflexivity.
+    + injection H as <- <-. unfold par2. rewrite <- app_assoc. reflexivity.
+Qed.
+
+Lemma d_split_last_args d : last_has_args d = true -> d_split d = Some (sh_d d, []).
+Proof.
+  induction d as [x|x a|x r IH|x a r IH]; cbn [last_has_args d_split sh_d]; intros H.
+  - discriminate.
+  - reflexivity.
+  - change (last_has_args r = true) in H. now rewrite (IH H).
+  - change (last_has_args r = true) in H. rewrite (IH H). unfold par2. reflexivity.
+Qed.
+
+Lemma wf_d_head d : wf_d d = true -> exists c y, sh_d d = c :: y /\ is_word c = true.
+Proof.
+  assert (Hn : forall x y, name_ok x = true -> exists c z, x ++ y = c :: z /\ is_word c = true).
+  { intros x y H. destruct (name_ok_word x H) as [Hw Hne]. destruct x as [|c x]; [contradiction|].
+    cbn in Hw. apply andb_true_iff in Hw as [Hc _]. exists c, (x ++ y). split; [reflexivity|exact Hc]. }
+  destruct d as [x|x a|x r|x a r]; cbn [wf_d sh_d]; intros H;
+    repeat match goal with H : _ && _ = true |- _ => apply andb_true_iff in H as [H ?] end.
+  - destruct (Hn x [] H) as (c & z & E & W). rewrite app_nil_r in E. eauto.
+  - exact (Hn x _ H).
+  - exact (Hn x _ H).
+  - exact (Hn x _ H).
+Qed.
+
+Lemma hd_not_word_pct y : hd_not is_word (pct :: y).
+Proof. reflexivity. Qed.
+Lemma hd_not_word_lpar y : hd_not is_word (lpar :: y).
+Proof. reflexivity. Qed.
+
+(* x%y  : one iteration without "()" *)
+Lemma parse_item_part0 x y : wordy x -> hd_not is_space y ->
+  parse_item (x ++ pct :: y) = Some (false, x, x ++ [pct], y).
+Proof.
+  intros Hw Hy. unfold parse_item.
+  rewrite (span_space_word x _ Hw). cbn [app].
+  rewrite (span_app is_word x (pct :: y) (proj1 Hw) (hd_not_word_pct y)).
+  destruct x as [|c0 x0]; [destruct Hw; contradiction|]. cbn [is_nil].
+  cbn [span is_space]. change (is_space pct) with false. cbn iota.
+  change (Ascii.eqb pct lpar) with false. cbn [andb].
+  destruct y as [|b y']; cbn [span]; change (is_space pct) with false; cbn iota;
+    change (Ascii.eqb pct pct) with true; cbn iota.
+  - cbn [span]. cbn [app]; rewrite ?app_nil_r; reflexivity.
+  - rewrite (span_nil is_space (b :: y') Hy). cbn [app]; rewrite ?app_nil_r; reflexivity.
+Qed.
+
+(* x()%y : one iteration with "()" *)
+Lemma parse_item_partA x y : wordy x -> hd_not is_space y ->
+  parse_item (x ++ par2 ++ pct :: y) = Some (true, x ++ par2, x ++ par2 ++ [pct], y).
+Proof.
+  intros Hw Hy. unfold parse_item, par2. cbn [app].
+  rewrite (span_space_word x _ Hw). cbn [app].
+  rewrite (span_app is_word x (lpar :: rpar :: pct :: y) (proj1 Hw) (hd_not_word_lpar _)).
+  destruct x as [|c0 x0]; [destruct Hw; contradiction|]. cbn [is_nil].
+  cbn [span]. change (is_space lpar) with false. cbn iota.
+  change (Ascii.eqb lpar lpar && Ascii.eqb rpar rpar) with true. cbn iota.
+  cbn [span]. change (is_space pct) with false. cbn iota.
+  change (Ascii.eqb pct pct) with true. cbn iota.
+  rewrite (span_nil is_space y Hy). cbn [app]; rewrite ?app_nil_r; reflexivity.
+Qed.
+
+(* x() followed by something that does not continue the chain *)
+Lemma parse_item_lastA x rest : wordy x -> close_after rest -> parse_item (x ++ par2 ++ rest) = None.
+Proof.
+  intros Hw Hc. unfold parse_item, par2. cbn [app].
+  rewrite (span_space_word x _ Hw). cbn [app].
+  rewrite (span_app is_word x (lpar :: rpar :: rest) (proj1 Hw) (hd_not_word_lpar _)).
+  destruct x as [|c0 x0]; [destruct Hw; contradiction|]. cbn [is_nil].
+  cbn [span]. change (is_space lpar) with false. cbn iota.
+  change (Ascii.eqb lpar lpar && Ascii.eqb rpar rpar) with true. cbn iota.
+  rewrite (span_space rest). unfold close_after in Hc.
+  destruct (lstrip_s rest) as [|a r]; [reflexivity|]. now rewrite Hc.
+Qed.
+
+Lemma match_req_lastA x rest : wordy x -> match_req (x ++ par2 ++ rest) = Some (x ++ par2, rest).
+Proof.
+  intros Hw. unfold match_req, par2. cbn [app].
+  rewrite (span_app is_word x (lpar :: rpar :: rest) (proj1 Hw) (hd_not_word_lpar _)).
+  destruct x as [|c0 x0]; [destruct Hw; contradiction|]. cbn [is_nil].
+  cbn [span]. change (is_space lpar) with false. cbn iota.
+  change (Ascii.eqb lpar lpar) with true. cbn iota.
+  change (Ascii.eqb rpar rpar || Ascii.eqb rpar nl) with true. cbn [negb]. cbn iota.
+  change (Ascii.eqb rpar rpar) with true. cbn iota. reflexivity.
+Qed.
+
+Lemma name_wordy x : name_ok x = true -> wordy x.
+Proof. intros H. exact (name_ok_word x H). Qed.
+
+Lemma hd_not_space_word c y : is_word c = true -> hd_not is_space (c :: y).
+Proof. intros H. cbn. now apply word_not_space. Qed.
+
+Lemma parse_items_d d rest fuel : wf_d d = true -> name_after rest -> length (d_items d) <= fuel ->
+  parse_items fuel (sh_d d ++ rest) = (d_items d, d_last d ++ rest).
+Proof.
+  revert fuel. induction d as [x|x a|x r IH|x a r IH]; intros fuel Hwf Ha Hf; cbn [wf_d] in Hwf;
+    cbn [sh_d d_items d_last].
+  - apply parse_items_none. apply parse_item_name; [now apply name_wordy|exact Ha].
+  - apply andb_true_iff in Hwf as [Hx _].
+    apply parse_items_none. rewrite <- app_assoc. apply parse_item_lastA; [now apply name_wordy|].
+    now apply name_after_close.
+  - apply andb_true_iff in Hwf as [Hx Hr].
+    cbn [d_items length] in Hf. destruct fuel as [|fuel]; [lia|]. cbn [parse_items].
+    destruct (wf_d_head r Hr) as (c & y & E & W).
+    rewrite <- app_assoc. cbn [app]. rewrite E. cbn [app].
+    rewrite (parse_item_part0 x (c :: y ++ rest) (name_wordy x Hx) (hd_not_space_word c _ W)).
+    change (c :: y ++ rest) with ((c :: y) ++ rest). rewrite <- E.
+    rewrite (IH fuel Hr Ha) by lia. reflexivity.
+  - apply andb_true_iff in Hwf as [Hx Hr]. apply andb_true_iff in Hx as [Hx _].
+    cbn [d_items length] in Hf. destruct fuel as [|fuel]; [lia|]. cbn [parse_items].
+    destruct (wf_d_head r Hr) as (c & y & E & W).
+    change (x ++ lpar :: rpar :: pct :: sh_d r) with (x ++ par2 ++ pct :: sh_d r).
+    rewrite <- !app_assoc. cbn [app]. rewrite E. cbn [app].
+    change (x ++ lpar :: rpar :: pct :: c :: y ++ rest) with (x ++ par2 ++ pct :: (c :: y ++ rest)).
+    rewrite (parse_item_partA x (c :: y ++ rest) (name_wordy x Hx) (hd_not_space_word c _ W)).
+    change (c :: y ++ rest) with ((c :: y) ++ rest). rewrite <- E.
+    rewrite (IH fuel Hr Ha) by lia. reflexivity.
+Qed.
+
+Lemma d_items_len d : length (d_items d) <= length (sh_d d).
+Proof.
+  induction d as [x|x a|x r IH|x a r IH]; cbn [d_items sh_d length]; try lia.
+  - rewrite app_length. cbn [length]. lia.
+  - rewrite app_length. cbn [length]. lia.
+Qed.
+
+Lemma d_last_cases d : wf_d d = true ->
+  exists x, wordy x /\ d_last d = (if last_has_args d then x ++ par2 else x).
+Proof.
+  induction d as [x|x a|x r IH|x a r IH]; cbn [wf_d d_last]; intros H.
+  - exists x. split; [now apply name_wordy|reflexivity].
+  - apply andb_true_iff in H as [H _]. exists x. split; [now apply name_wordy|reflexivity].
+  - apply andb_true_iff in H as [_ H]. exact (IH H).
+  - apply andb_true_iff in H as [_ H]. exact (IH H).
+Qed.
+
+Lemma fallback_d d pre best : last_has_args d = false ->
+  fallback pre (d_items d) best = match d_split d with Some (h, _) => Some (pre ++ h) | None => best end.
+Proof.
+  revert pre best. induction d as [x|x a|x r IH|x a r IH]; intros pre best H; cbn [d_items d_split fallback].
+  - reflexivity.
+  - discriminate.
+  - change (last_has_args r = false) in H. rewrite (IH _ _ H).
+    destruct (d_split r) as [[h t]|]; [|reflexivity]. rewrite <- ?app_assoc; cbn [app]; reflexivity.
+  - change (last_has_args r = false) in H. rewrite (IH _ _ H).
+    destruct (d_split r) as [[h t]|]; [|reflexivity]. unfold par2. rewrite <- ?app_assoc; cbn [app]; reflexivity.
+Qed.
+
+Lemma skipn_app_len {A} (a b : list A) : skipn (length a) (a ++ b) = b.
+Proof. induction a as [|x a IH]; [reflexivity|exact IH]. Qed.
+
+Lemma match_call_d d rest : wf_d d = true -> name_after rest ->
+  match_call (sh_d d ++ rest) = match d_split d with Some (h, t) => Some (h, t ++ rest) | None => None end.
+Proof.
+  intros Hwf Ha. unfold match_call.
+  rewrite (parse_items_d d rest _ Hwf Ha) by (rewrite app_length; pose proof (d_items_len d); lia).
+  destruct (d_last_cases d Hwf) as (x & Hx & El).
+  destruct (last_has_args d) eqn:La.
+  - rewrite El, <- app_assoc, (match_req_lastA x rest Hx).
+    rewrite (d_split_last_args d La). rewrite <- El, <- sh_d_items. reflexivity.
+  - rewrite El, (match_req_name x rest Hx Ha).
+    rewrite (fallback_d d [] None La).
+    destruct (d_split d) as [[h t]|] eqn:Es; [|reflexivity].
+    cbn [app]. rewrite (d_split_eq d h t Es), <- app_assoc, skipn_app_len. reflexivity.
+Qed.
+
+(* ------------------------------------------------------------------ the scan *)
+Lemma call_scan_skip p y : call_scan (length p) (p ++ y) = call_scan 0 y.
+Proof. induction p as [|c p IH]; [reflexivity|]. cbn [length app call_scan]. exact IH. Qed.
+
+Lemma call_scan_nonword c y : is_word c = false -> call_scan 0 (c :: y) = call_scan 0 y.
+Proof. intros H. cbn [call_scan]. now rewrite H. Qed.
+
+Lemma call_scan_word_none w rest : wordy w -> hd_not is_word rest -> match_call (w ++ rest) = None ->
+  call_scan 0 (w ++ rest) = call_scan 0 rest.
+Proof.
+  intros Hw Hr Hm. destruct (wordy_hd w Hw) as (c & w' & -> & Hc).
+  cbn [app call_scan]. rewrite Hc. change (c :: w' ++ rest) with ((c :: w') ++ rest). rewrite Hm.
+  rewrite (span_app is_word (c :: w') rest (proj1 Hw) Hr). cbn [fst].
+  replace (length (c :: w') - 1) with (length w') by (cbn [length]; lia). apply call_scan_skip.
+Qed.
+
+Lemma call_scan_match c h t rest' : is_word c = true ->
+  match_call ((c :: h) ++ t) = Some (c :: h, rest') -> call_scan 0 ((c :: h) ++ t) = (c :: h) :: call_scan 0 t.
+Proof.
+  intros Hc Hm. cbn [app call_scan]. rewrite Hc. change (c :: h ++ t) with ((c :: h) ++ t). rewrite Hm.
+  replace (length (c :: h) - 1) with (length h) by (cbn [length]; lia). now rewrite call_scan_skip.
+Qed.
+
+(* ---- inert text ---- *)
+Lemma inert_word_run b w t : forallb is_word w = true -> w <> [] -> inert_from b (w ++ t) = inert_from true t.
+Proof.
+  revert b. induction w as [|c w IH]; intros b Hw Hn; [contradiction|].
+  cbn [forallb] in Hw. apply andb_true_iff in Hw as [Hc Hw]. cbn [app inert_from]. rewrite Hc.
+  destruct w as [|c' w']; [reflexivity|]. apply IH; [exact Hw|discriminate].
+Qed.
+
+Lemma last_nonword_app a b : b <> [] -> last_nonword (a ++ b) = last_nonword b.
+Proof.
+  intros Hb. unfold last_nonword. rewrite rev_app_distr.
+  destruct (rev b) as [|c r] eqn:E; [|reflexivity].
+  apply (f_equal (@rev ascii)) in E. rewrite rev_involutive in E. contradiction.
+Qed.
+
+Lemma last_nonword_wordy w : wordy w -> last_nonword w = false.
+Proof.
+  intros [Hw Hn]. unfold last_nonword, first_nonword.
+  destruct (rev w) as [|c r] eqn:E; [reflexivity|].
+  assert (Hin : In c w) by (apply in_rev; rewrite E; now left).
+  rewrite forallb_forall in Hw. now rewrite (Hw c Hin).
+Qed.
+
+Lemma scan_inert_n n : forall t rest, length t <= n -> inert_from false t = true ->
+  (last_nonword t = true \/ name_after rest) ->
+  call_scan 0 (t ++ rest) = call_scan 0 rest.
+Proof.
+  induction n as [|n IH]; intros t rest Hlen Hin Htail.
+  - destruct t; [reflexivity|cbn in Hlen; lia].
+  - destruct t as [|c t1]; [reflexivity|].
+    destruct (is_word c) eqn:Wc.
+    + pose (w := fst (span is_word (c :: t1))). pose (t2 := snd (span is_word (c :: t1))).
+      assert (Et : c :: t1 = w ++ t2) by apply span_eq.
+      assert (Hw : wordy w).
+      { split; [apply span_fst_all|]. unfold w. cbn [span]. rewrite Wc. destruct (span is_word t1). discriminate. }
+      assert (Ht2 : hd_not is_word t2) by apply span_snd_hd.
+      rewrite Et in Hin |- *. rewrite (inert_word_run false w t2 (proj1 Hw) (proj2 Hw)) in Hin.
+      rewrite <- app_assoc.
+      destruct t2 as [|h t3].
+      * rewrite app_nil_r in Et. cbn [app].
+        assert (Ha : name_after rest).
+        { destruct Htail as [Hl|Ha]; [|exact Ha]. rewrite Et, (last_nonword_wordy w Hw) in Hl. discriminate. }
+        apply call_scan_word_none; [exact Hw|exact (proj1 Ha)|now apply match_call_name].
+      * cbn in Ht2. cbn [inert_from] in Hin. rewrite Ht2 in Hin.
+        destruct (bad_char h) eqn:Bh; [discriminate|]. cbn [andb] in Hin.
+        destruct (is_space h) eqn:Sh; [discriminate|].
+        destruct (bad_cases h Bh) as (B1 & B2 & B3 & B4).
+        assert (Ha : name_after ((h :: t3) ++ rest)).
+        { split; [exact Ht2|]. unfold lstrip_s. cbn [app span]. rewrite Sh. cbn [snd]. split; assumption. }
+        rewrite (call_scan_word_none w ((h :: t3) ++ rest) Hw Ht2 (match_call_name w _ Hw Ha)).
+        apply IH.
+        -- assert (length (c :: t1) = length w + length (h :: t3)) by (rewrite Et; apply app_length).
+           destruct Hw as [_ Hne]. destruct w; [contradiction|]. cbn [length] in *. lia.
+        -- cbn [inert_from]. rewrite Ht2, Bh. cbn [andb]. exact Hin.
+        -- destruct Htail as [Hl|Ha']; [|now right]. left.
+           rewrite Et in Hl. rewrite last_nonword_app in Hl by discriminate. exact Hl.
+    + cbn [inert_from] in Hin. rewrite Wc in Hin. destruct (bad_char c) eqn:Bc; [discriminate|]. cbn [andb] in Hin.
+      cbn [app]. rewrite (call_scan_nonword c _ Wc).
+      destruct t1 as [|c1 t1']; [reflexivity|].
+      apply IH; [cbn [length] in *; lia|exact Hin|].
+      destruct Htail as [Hl|Ha]; [|now right]. left.
+      change (c :: c1 :: t1') with ([c] ++ c1 :: t1') in Hl. rewrite last_nonword_app in Hl by discriminate. exact Hl.
+Qed.
+
+Lemma scan_inert t rest : inert t = true -> (last_nonword t = true \/ name_after rest) ->
+  call_scan 0 (t ++ rest) = call_scan 0 rest.
+Proof. intros H1 H2. exact (scan_inert_n (length t) t rest (le_n _) H1 H2). Qed.
+
+(* ---- designators ---- *)
+Lemma wf_d_name d : wf_d d = true ->
+  match d with
+  | DLast0 x => name_ok x = true
+  | DLastA x a => name_ok x = true /\ wf_e a = true
+  | DPart0 x r => name_ok x = true /\ wf_d r = true
+  | DPartA x a r => name_ok x = true /\ wf_e a = true /\ wf_d r = true
+  end.
+Proof.
+  destruct d; cbn [wf_d]; intros H; repeat (apply andb_true_iff in H as [H ?]); auto.
+Qed.
+
+(* a chain without any argument list is skipped *)
+Lemma scan_d_noargs d rest : d_split d = None -> wf_d d = true -> name_after rest ->
+  call_scan 0 (sh_d d ++ rest) = call_scan 0 rest.
+Proof.
+  induction d as [x|x a|x r IH|x a r IH]; intros Hs Hwf Ha; cbn [d_split] in Hs.
+  - cbn [sh_d]. pose proof (wf_d_name _ Hwf) as Hx. cbn in Hx.
+    apply call_scan_word_none; [now apply name_wordy|exact (proj1 Ha)|apply match_call_name; [now apply name_wordy|exact Ha]].
+  - discriminate.
+  - destruct (wf_d_name _ Hwf) as [Hx Hr].
+    destruct (d_split r) as [[h t]|] eqn:Er; [discriminate|].
+    pose proof (match_call_d (DPart0 x r) rest Hwf Ha) as Hm. cbn [d_split] in Hm. rewrite Er in Hm.
+    cbn [sh_d] in *. rewrite <- app_assoc in *. cbn [app] in *.
+    rewrite (call_scan_word_none x _ (name_wordy x Hx) (hd_not_word_pct _) Hm).
+    rewrite call_scan_nonword by reflexivity. now apply IH.
+  - destruct (d_split r) as [[h t]|]; discriminate.
+Qed.
+
+Lemma scan_d_tail d h t rest : d_split d = Some (h, t) -> wf_d d = true -> name_after rest ->
+  call_scan 0 (t ++ rest) = call_scan 0 rest.
+Proof.
+  revert h t. induction d as [x|x a|x r IH|x a r IH]; intros h t Hs Hwf Ha; cbn [d_split] in Hs.
+  - discriminate.
+  - injection Hs as <- <-. reflexivity.
+  - destruct (wf_d_name _ Hwf) as [Hx Hr].
+    destruct (d_split r) as [[h' t']|] eqn:Er; [|discriminate]. injection Hs as <- <-.
+    exact (IH h' t' eq_refl Hr Ha).
+  - destruct (wf_d_name _ Hwf) as (Hx & _ & Hr).
+    destruct (d_split r) as [[h' t']|] eqn:Er.
+    + injection Hs as <- <-. exact (IH h' t' eq_refl Hr Ha).
+    + injection Hs as <- <-. cbn [app]. rewrite call_scan_nonword by reflexivity.
+      now apply scan_d_noargs.
+Qed.
+
+Lemma d_split_head d h t : d_split d = Some (h, t) -> wf_d d = true ->
+  exists c h', h = c :: h' /\ is_word c = true.
+Proof.
+  intros Hs Hwf. destruct (wf_d_head d Hwf) as (c & y & E & W).
+  rewrite (d_split_eq d h t Hs) in E.
+  destruct h as [|c' h'].
+  - exfalso. destruct d as [x|x a|x r|x a r]; cbn [d_split] in Hs.
+    + discriminate.
+    + injection Hs as Hh _. destruct x; discriminate.
+    + destruct (d_split r) as [[? ?]|]; [|discriminate]. injection Hs as Hh _. destruct x; discriminate.
+    + destruct (d_split r) as [[? ?]|]; injection Hs as Hh _; destruct x; discriminate.
+  - cbn [app] in E. injection E as -> _. eauto.
+Qed.
+
+Definition d_heads (d : desig) : list str :=
+  match d_split d with Some (h, _) => [h] | None => [] end.
+
+Lemma scan_d d rest : wf_d d = true -> name_after rest ->
+  call_scan 0 (sh_d d ++ rest) = d_heads d ++ call_scan 0 rest.
+Proof.
+  intros Hwf Ha. unfold d_heads. destruct (d_split d) as [[h t]|] eqn:Es.
+  - pose proof (match_call_d d rest Hwf Ha) as Hm. rewrite Es in Hm.
+    rewrite (d_split_eq d h t Es) in *. rewrite <- app_assoc in *.
+    destruct (d_split_head d h t Es Hwf) as (c & h' & -> & Wc).
+    rewrite (call_scan_match c h' (t ++ rest) _ Wc Hm). cbn [app]. f_equal.
+    exact (scan_d_tail d _ t rest Es Hwf Ha).
+  - cbn [app]. now apply scan_d_noargs.
+Qed.
+
+(* ---- expressions ---- *)
+Fixpoint e_heads (e : expr) : list str :=
+  match e with
+  | ELit _ => []
+  | EDes d => d_heads d
+  | EPar _ => []
+  | EUn _ e' => e_heads e'
+  | EBin a _ b => e_heads a ++ e_heads b
+  end.
+
+Lemma inert_first_nonspace b op y : inert_from b op = true -> has_nonspace op = true ->
+  match lstrip_s (op ++ y) with c :: _ => Ascii.eqb c lpar = false /\ Ascii.eqb c pct = false | [] => True end.
+Proof.
+  revert b. induction op as [|c op IH]; intros b Hin Hns; [discriminate|].
+  cbn [has_nonspace existsb] in Hns. cbn [inert_from] in Hin.
+  unfold lstrip_s. cbn [app span].
+  destruct (is_space c) eqn:Sc.
+  - cbn [negb orb] in Hns.
+    assert (Wc : is_word c = false).
+    { destruct (is_word c) eqn:W; [|reflexivity]. apply word_not_space in W. congruence. }
+    rewrite Wc in Hin. destruct (bad_char c); [discriminate|]. destruct (b && true) eqn:Eb; [discriminate|].
+    specialize (IH false Hin Hns). unfold lstrip_s in IH. destruct (span is_space (op ++ y)). exact IH.
+  - cbn [snd]. destruct (is_word c) eqn:Wc.
+    + split; [now apply word_not_lpar|now apply word_not_pct].
+    + destruct (bad_char c) eqn:Bc; [discriminate|]. destruct (bad_cases c Bc) as (B1 & _ & B3 & _). now split.
+Qed.
+
+Lemma op_name_after op y : op_ok op = true -> name_after (op ++ y).
+Proof.
+  unfold op_ok. intros H. apply andb_true_iff in H as [H Hns]. apply andb_true_iff in H as [H _].
+  apply andb_true_iff in H as [Hin Hf].
+  split.
+  - destruct op as [|c op]; [discriminate|]. cbn in Hf |- *. now apply negb_true_iff in Hf.
+  - exact (inert_first_nonspace false op y Hin Hns).
+Qed.
+
+Lemma op_tail_ok op rest : op_ok op = true -> last_nonword op = true \/ name_after rest.
+Proof.
+  unfold op_ok. intros H. apply andb_true_iff in H as [H _]. apply andb_true_iff in H as [_ H]. now left.
+Qed.
+Lemma unop_tail_ok op rest : unop_ok op = true -> last_nonword op = true \/ name_after rest.
+Proof.
+  unfold unop_ok. intros H. repeat (apply andb_true_iff in H as [H ?]). now left.
+Qed.
+
+Lemma scan_e_d :
+  (forall e, wf_e e = true -> forall rest, name_after rest ->
+     call_scan 0 (sh_e e ++ rest) = e_heads e ++ call_scan 0 rest) /\
+  (forall d, wf_d d = true -> forall rest, name_after rest ->
+     call_scan 0 (sh_d d ++ rest) = d_heads d ++ call_scan 0 rest).
+Proof.
+  split; [|intros d Hwf rest Ha; now apply scan_d].
+  induction e as [t|d|e IH|op e IH|a IHa op b IHb]; intros Hwf rest Ha; cbn [wf_e sh_e e_heads] in *.
+  - cbn [app]. apply scan_inert; [now apply lit_ok_inert|now right].
+  - now apply scan_d.
+  - cbn [app]. rewrite call_scan_nonword by reflexivity. now rewrite call_scan_nonword by reflexivity.
+  - apply andb_true_iff in Hwf as [Hop He]. rewrite <- app_assoc.
+    rewrite (scan_inert op _ (unop_ok_inert op Hop) (unop_tail_ok op _ Hop)). now apply IH.
+  - apply andb_true_iff in Hwf as [Hwf Hb]. apply andb_true_iff in Hwf as [Hwa Hop].
+    rewrite <- !app_assoc.
+    rewrite (IHa Hwa _ (op_name_after op _ Hop)).
+    rewrite (scan_inert op _ (op_ok_inert op Hop) (op_tail_ok op _ Hop)).
+    rewrite (IHb Hb rest Ha). now rewrite app_assoc.
+Qed.
+
+Definition scan_e := proj1 scan_e_d.
